@@ -19,6 +19,8 @@ from typing import Any, Dict, List, Optional
 
 ROOT = os.path.dirname(os.path.dirname(os.path.abspath(__file__)))
 REPO = os.environ.get("VERIF_REPO", "/repo")
+# where evidence/ and replays/ are written (mutant runs point this at a scratch dir)
+OUT = os.environ.get("VERIF_OUT_DIR", ROOT)
 
 PROPS = {
     "C01": "props.c01_syntax",
@@ -223,7 +225,7 @@ def load_findings(pid: str) -> List[Dict[str, Any]]:
 
 # --------------------------------------------------------------------- runner
 def write_evidence(pid, tier, seed, level, coverage, assumptions, wall, nviol):
-    os.makedirs(os.path.join(ROOT, "evidence"), exist_ok=True)
+    os.makedirs(os.path.join(OUT, "evidence"), exist_ok=True)
     ev = {
         "property_id": pid,
         "tier": tier,
@@ -235,7 +237,7 @@ def write_evidence(pid, tier, seed, level, coverage, assumptions, wall, nviol):
         "violations": nviol,
     }
     validate_evidence(ev)
-    path = os.path.join(ROOT, "evidence", f"{pid}.json")
+    path = os.path.join(OUT, "evidence", f"{pid}.json")
     tmp = path + ".tmp"
     with open(tmp, "w") as f:
         json.dump(ev, f, indent=1, sort_keys=True)
@@ -358,7 +360,7 @@ def main(argv: Optional[List[str]] = None) -> int:
         by_sig.setdefault(v["signature"], v)
     new_sigs = [s for s in by_sig if s not in known]
     rc = 0
-    os.makedirs(os.path.join(ROOT, "replays", pid), exist_ok=True)
+    os.makedirs(os.path.join(OUT, "replays", pid), exist_ok=True)
     for sig in sorted(by_sig):
         v = by_sig[sig]
         if sig in known:
@@ -366,7 +368,7 @@ def main(argv: Optional[List[str]] = None) -> int:
             continue
         art = {"property": pid, **v, "count": viol_counts[sig], "tier": a.tier}
         sha = hashlib.sha1(json.dumps(art["case"], sort_keys=True).encode()).hexdigest()[:12]
-        path = os.path.join(ROOT, "replays", pid, f"{sha}.json")
+        path = os.path.join(OUT, "replays", pid, f"{sha}.json")
         with open(path, "w") as f:
             json.dump(art, f, indent=1, sort_keys=True)
         # every violation is re-executed from its artefact in a fresh process
